@@ -227,6 +227,180 @@ def compare(spec, impl, out, dis):
         dis.append({'what': 'jvec has non-finite entries', 'case': b})
 
 
+
+def comp_grids_for(spec, mode, npr):
+    """gridding_opts for the explicit non-'same' modes: one tiny grid ('input')
+    or one per source-frequency pair ('dict')."""
+    survey = H.make_survey(spec)
+    if mode == 'input':
+        return H.comp_grid(spec, npr)
+    return {sn: {fn: H.comp_grid(spec, npr) for fn in survey.frequencies.keys()}
+            for sn in survey.sources.keys()}
+
+
+def run_tcase(spec, seed, mode):
+    """jtvec with a computational grid /= model grid and >= 2 source-frequency
+    pairs: the per-pair gradients must be ACCUMULATED on the model grid through
+    the transposed volume averaging.  Coq: gradient_pipeline_T."""
+    npr = np.random.RandomState(seed)
+    gopts_ = comp_grids_for(spec, mode, npr)
+    with H.Recorder() as rec, H.quiet():
+        sim = H.new_sim(spec, solver=H.LOOSE, gridding=mode, gridding_opts=gopts_)
+        _ = sim.misfit
+        wts = np.array(sim.data.weights.data, dtype=float)
+        amp = np.abs(np.array(spec['amp']))
+        y = data_vec(npr, sim.survey.shape, amp * np.where(np.isfinite(wts), wts, 1.0))
+        jt = np.array(sim.jtvec(y))
+        g = np.array(sim.gradient)
+    srcfreq = list(sim._srcfreq)
+    nsf = len(srcfreq)
+    assert nsf >= 2 and len(rec.calls) >= 2 * nsf
+    fwd, bwd = rec.calls[:nsf], rec.calls[nsf:2 * nsf]
+    mgrid = sim.model.grid
+    nxm, nym, nzm = mgrid.shape_cells
+    chains = chain_arrays(spec, sim.model)
+    L = [H.HEADER]
+    for nm, a in zip(('cx', 'cy', 'cz'), chains):
+        L.append(f"Definition {nm} := {H.karr3(a)}.")
+    items, pairs = [], []
+    for k in range(nsf):
+        e, b = fwd[k][1][0], bwd[k][1][0]
+        cg = e.grid
+        vol = cg.cell_volumes.reshape(cg.shape_cells, order='F')
+        ent = H.vt_entries(mgrid, cg)
+        pairs.append((complex(e.smu0), e, b, vol, ent))
+        L.append(f"Definition e_{k} := {H.kfield3(e)}.")
+        L.append(f"Definition b_{k} := {H.kfield3(b)}.")
+        L.append(f"Definition vol_{k} := {H.karr3(vol)}.")
+        L.append(f"Definition T_{k} := {H.kentries(ent)}.")
+        nx, ny, nz = cg.shape_cells
+        items.append(f"{{| pc_nx := {nx}; pc_ny := {ny}; pc_nz := {nz}; pc_vol := vol_{k}; "
+                     f"pc_smu0 := {H.kq(complex(e.smu0))}; pc_e := e_{k}; pc_b := b_{k}; "
+                     f"pc_T := T_{k} |}}")
+    L.append(f"Eval vm_compute in map (dump3 out_c {nxm} {nym} {nzm}) (gradient_pipeline_T cj "
+             f"{spec['aniso']} {nxm} {nym} {nzm} [{'; '.join(items)}] cx cy cz).")
+    mirror = H.np_pipeline(spec['aniso'], (nxm, nym, nzm), pairs, chains)
+    grids_differ = all(p[1].grid != mgrid for p in pairs)
+    return '\n'.join(L) + '\n', dict(jt=jt, grad=g, mirror=mirror, shape=(nxm, nym, nzm),
+                                      nsf=nsf, mode=mode, grids_differ=grids_differ)
+
+
+def compare_tcase(spec, impl, out, dis):
+    b = dict(H.brief(spec), gridding=impl['mode'], pairs=impl['nsf'])
+    ans = V.eval_answers(out)
+    if len(ans) != 1:
+        dis.append({'what': 'unexpected number of model answers', 'case': b, 'log': out[-800:]})
+        return
+    nx, ny, nz = impl['shape']
+    nc = H.NCOMP[spec['aniso']]
+    gm = np.array(H.parse_c(ans[0])).reshape((nc, nx, ny, nz)).real
+    gi = impl['jt'].reshape((nc, nx, ny, nz))
+    scale = max(float(np.max(np.abs(gi))), float(np.max(np.abs(gm))))
+    if not impl['grids_differ']:
+        dis.append({'what': 'harness: computational grid equals model grid', 'case': b})
+    err = np.abs(gi - gm)
+    if np.max(err) > 1e-9 * max(scale, 1e-300):
+        kk = np.unravel_index(int(np.argmax(err)), err.shape)
+        dis.append({'what': 'Simulation.jtvec (computational grid /= model grid, several '
+                            'source-frequency pairs) differs from model gradient_pipeline_T',
+                    'case': b, 'entry': [int(x) for x in kk], 'impl': float(gi[kk]),
+                    'model': float(gm[kk]), 'scale': scale})
+    if np.max(np.abs(impl['mirror'] - gm)) > 1e-9 * max(scale, 1e-300):
+        dis.append({'what': 'harness: numpy mirror differs from Coq gradient_pipeline_T', 'case': b})
+
+
+def direct_adj_case(npr):
+    """maps._interp_volume_average_adj called directly with a NON-ZERO output
+    array: Coq vt_add3 on the entries of discretize's matrix."""
+    import emg3d
+    from emg3d import maps
+    g1 = emg3d.TensorMesh([np.round(npr.uniform(1, 3, npr.randint(2, 4)) * 8) / 8 for _ in range(3)],
+                          (0, 0, 0))
+    hs = []
+    for d in range(3):
+        ext = [g1.nodes_x, g1.nodes_y, g1.nodes_z][d][-1]
+        h = np.round(npr.uniform(1, 3, npr.randint(2, 4)) * 8) / 8
+        hs.append(h)
+    g2 = emg3d.TensorMesh(hs, tuple(-np.round(npr.uniform(0, 1, 3) * 8) / 8))
+    nval = np.asfortranarray(np.round(npr.uniform(-4, 4, (3, *g2.shape_cells)) * 16) / 16)
+    oval0 = np.asfortranarray(np.round(npr.uniform(-4, 4, (3, *g1.shape_cells)) * 16) / 16)
+    oval = oval0.copy(order='F')
+    maps._interp_volume_average_adj(oval=oval, ogrid=g1, nval=nval, ngrid=g2)
+    ent = H.vt_entries(g1, g2)
+    n1 = g1.shape_cells
+    L = [H.HEADER, f"Definition T := {H.kentries(ent)}.",
+         "Definition nval := (" + ', '.join(H.karr3(nval[c]) for c in range(3)) + ").",
+         "Definition oval := (" + ', '.join(H.karr3(oval0[c]) for c in range(3)) + ").",
+         "Definition res := vt_add3 T nval oval.",
+         f"Eval vm_compute in dump3 out_c {n1[0]} {n1[1]} {n1[2]} (fst (fst res)) ++ "
+         f"dump3 out_c {n1[0]} {n1[1]} {n1[2]} (snd (fst res)) ++ "
+         f"dump3 out_c {n1[0]} {n1[1]} {n1[2]} (snd res)."]
+    return '\n'.join(L) + '\n', dict(oval=oval, shapes=[list(g1.shape_cells), list(g2.shape_cells)],
+                                      nnz=len(ent))
+
+
+def compare_direct(impl, out, dis):
+    ans = V.eval_answers(out)
+    if len(ans) != 1:
+        dis.append({'what': 'vt_add3 model does not answer', 'log': out[-600:]})
+        return
+    mod = np.array(H.parse_c(ans[0])).real
+    iv = impl['oval'].reshape(3, -1)
+    iv = np.concatenate([impl['oval'][c].ravel() for c in range(3)])
+    if len(mod) != len(iv) or np.max(np.abs(mod - iv)) > 1e-9 * max(1.0, float(np.max(np.abs(iv)))):
+        kk = int(np.argmax(np.abs(mod - iv))) if len(mod) == len(iv) else -1
+        dis.append({'what': '_interp_volume_average_adj (direct call, non-zero output array) differs '
+                            'from model vt_add3 (accumulate semantics)',
+                    'case': impl['shapes'], 'index': kk, 'impl': float(iv[kk]), 'model': float(mod[kk])})
+
+
+def auto_mode_case(spec, mode, seed, dis, hist):
+    """Automatic gridding modes (8^3 computational grids, too large for exact
+    rationals): Simulation.jtvec vs the numpy mirror of gradient_pipeline_T
+    (the mirror is compared with the Coq model on the small cases of this run),
+    in memory; then the same query with file_dir must give the same arrays."""
+    npr = np.random.RandomState(seed)
+    kw = dict(gridding=mode, gridding_opts=gopts(spec))
+    with H.Recorder() as rec, H.quiet():
+        sim = H.new_sim(spec, solver=H.LOOSE, **kw)
+        _ = sim.misfit
+        wts = np.array(sim.data.weights.data, dtype=float)
+        amp = np.abs(np.array(spec['amp']))
+        y = data_vec(npr, sim.survey.shape, amp * np.where(np.isfinite(wts), wts, 1.0))
+        jt = np.array(sim.jtvec(y))
+    nsf = len(sim._srcfreq)
+    fwd, bwd = rec.calls[:nsf], rec.calls[nsf:2 * nsf]
+    mgrid = sim.model.grid
+    pairs = []
+    for k in range(nsf):
+        e, b_ = fwd[k][1][0], bwd[k][1][0]
+        cg = e.grid
+        pairs.append((complex(e.smu0), e, b_, cg.cell_volumes.reshape(cg.shape_cells, order='F'),
+                      H.vt_entries(mgrid, cg)))
+    nc = H.NCOMP[spec['aniso']]
+    mirror = H.np_pipeline(spec['aniso'], mgrid.shape_cells, pairs, chain_arrays(spec, sim.model))
+    gi = jt.reshape((nc, *mgrid.shape_cells))
+    scale = max(float(np.max(np.abs(gi))), float(np.max(np.abs(mirror))), 1e-300)
+    b = dict(H.brief(spec), gridding=mode, pairs=nsf)
+    hist['auto:' + mode] = hist.get('auto:' + mode, 0) + 1
+    if np.max(np.abs(gi - mirror)) > 1e-8 * scale:
+        kk = np.unravel_index(int(np.argmax(np.abs(gi - mirror))), gi.shape)
+        dis.append({'what': 'Simulation.jtvec (automatic gridding, several source-frequency pairs) '
+                            'differs from the accumulated per-pair pipeline', 'case': b,
+                    'entry': [int(x) for x in kk], 'impl': float(gi[kk]), 'model': float(mirror[kk])})
+    tmp = tempfile.mkdtemp(prefix='c08_')
+    try:
+        with H.quiet():
+            sim2 = H.new_sim(spec, solver=H.LOOSE, file_dir=tmp, **kw)
+            _ = sim2.misfit
+            jt2 = np.array(sim2.jtvec(y.copy()))
+    finally:
+        shutil.rmtree(tmp, ignore_errors=True)
+    hist['auto-file:' + mode] = hist.get('auto-file:' + mode, 0) + 1
+    if jt2.shape != jt.shape or np.max(np.abs(jt2 - jt)) > 1e-9 * scale:
+        dis.append({'what': 'jtvec with file_dir differs from jtvec in memory', 'case': b})
+
+
 def vt_validation(ctx, dis, n):
     """Section hypothesis V_T for non-'same' gridding: discretize's
     volume_average(...).T (used by the gradient) is the transpose of emg3d's
@@ -250,9 +424,10 @@ def vt_validation(ctx, dis, n):
         x = npr.standard_normal((3, *g2.shape_cells))
         Va = maps.interpolate(grid=g1, values=a, xi=g2, method='volume', extrapolate=True, log=False)
         lhs = float(np.sum(Va * x[0]))
-        o = np.zeros((3, *g1.shape_cells), order='F')
+        o0 = np.asfortranarray(npr.standard_normal((3, *g1.shape_cells)))
+        o = o0.copy(order='F')                      # NON-ZERO output: the function must ADD
         maps._interp_volume_average_adj(oval=o, ogrid=g1, nval=np.asfortranarray(x), ngrid=g2)
-        rhs = float(np.sum(a * o[0]))
+        rhs = float(np.sum(a * (o[0] - o0[0])))
         cnt += 1
         if abs(lhs - rhs) > 1e-9 * max(abs(lhs), abs(rhs), 1e-300):
             dis.append({'what': 'hypothesis V_T: _interp_volume_average_adj is not the transpose of '
@@ -264,7 +439,7 @@ def vt_validation(ctx, dis, n):
 
 def correspondence(ctx):
     rng = ctx.rng
-    n = 20 if ctx.thorough else 8
+    n = 16 if ctx.thorough else 6
     off = rng.randrange(24)
     specs = [H.add_observed(H.gen_spec(rng, idx=off + 3 * i + i // 8, n_freq=1 if i % 2 else None,
                                        n_src=1 if i % 3 == 0 else None,
@@ -274,6 +449,29 @@ def correspondence(ctx):
         t, im = run_case(sp, rng.randrange(2**31))
         texts.append((f"c08_t_{i}", t))
         impls.append(im)
+    # computational grid /= model grid, >= 2 source-frequency pairs ('input' / 'dict')
+    nt = 6 if ctx.thorough else 2
+    tspecs, timpls = [], []
+    for i in range(nt):
+        two_src = (i + off) % 2 == 0
+        sp = H.add_observed(H.gen_spec(rng, idx=off + 5 * i + 1, n_src=2 if two_src else 1,
+                                       n_freq=1 if two_src else 2, n_rec=2,
+                                       max_pairs=2), rng)
+        if len(sp['freqs']) * len(sp['sources']) < 2:      # two equal frequencies were drawn
+            sp['freqs'] = [1.0, 2.0]
+            sp['obs'] = None
+            sp = H.add_observed(sp, rng)
+        t, im = run_tcase(sp, rng.randrange(2**31), 'input' if i % 2 == 0 else 'dict')
+        texts.append((f"c08_g_{i}", t))
+        tspecs.append(sp)
+        timpls.append(im)
+    # direct calls of _interp_volume_average_adj with a non-zero output array
+    nd = 6 if ctx.thorough else 2
+    dimpls = []
+    for i in range(nd):
+        t, im = direct_adj_case(np.random.RandomState(rng.randrange(2**31)))
+        texts.append((f"c08_d_{i}", t))
+        dimpls.append(im)
     res = V.coq_eval_many(texts, timeout=1200)
     dis, seen, hist = [], set(), {}
     for i, sp in enumerate(specs):
@@ -290,27 +488,69 @@ def correspondence(ctx):
         for k_ in ('map:' + b['mapping'], 'aniso:' + b['aniso'], 'noise:' + b['noise'],
                    'shape:' + 'x'.join(map(str, b['shape']))):
             hist[k_] = hist.get(k_, 0) + 1
+    for i, sp in enumerate(tspecs):
+        rc, out = res[f"c08_g_{i}"]
+        if rc != 0:
+            dis.append({'what': 'model does not evaluate', 'case': H.brief(sp), 'log': out[-1500:]})
+            continue
+        compare_tcase(sp, timpls[i], out, dis)
+        b = H.brief(sp)
+        seen.add((timpls[i]['mode'], timpls[i]['nsf'], b['mapping'], b['aniso']))
+        k_ = f"gridding:{timpls[i]['mode']} pairs:{timpls[i]['nsf']}"
+        hist[k_] = hist.get(k_, 0) + 1
+    for i, im in enumerate(dimpls):
+        rc, out = res[f"c08_d_{i}"]
+        if rc != 0:
+            dis.append({'what': 'vt_add3 model does not evaluate', 'log': out[-1500:]})
+            continue
+        compare_direct(im, out, dis)
+        hist['direct _interp_volume_average_adj (non-zero oval)'] = \
+            hist.get('direct _interp_volume_average_adj (non-zero oval)', 0) + 1
+    # automatic gridding modes, >= 2 pairs, memory and file_dir
+    modes = ['single', 'frequency', 'source', 'both']
+    if not ctx.thorough:
+        k0 = rng.randrange(4)
+        modes = [modes[k0], modes[(k0 + 2) % 4]]
+    na = 0
+    for i, mode in enumerate(modes):
+        two_src = i % 2 == 0
+        sp = H.add_observed(H.gen_spec(rng, idx=off + 7 * i + 2, n_src=2 if two_src else 1,
+                                       n_freq=1 if two_src else 2, n_rec=2, max_pairs=2), rng)
+        if len(sp['freqs']) * len(sp['sources']) < 2:
+            sp['freqs'] = [1.0, 2.0]
+            sp['obs'] = None
+            sp = H.add_observed(sp, rng)
+        auto_mode_case(sp, mode, rng.randrange(2**31), dis, hist)
+        seen.add(('auto', mode))
+        na += 1
     nv = vt_validation(ctx, dis, 40 if ctx.thorough else 12)
     hist['V_T validations'] = nv
     return {
-        'evaluations': len(specs) + nv,
+        'evaluations': len(specs) + nt + nd + 2 * na + nv,
         'distinct_nontrivial': len(seen),
-        'rule': "cases as for C07 (random stretched 4..5^3 grids, six maps, four anisotropy cases, six "
-                "source kinds, electric/magnetic absolute/relative receivers, NaN gaps, six noise "
-                "modes); per case a fresh simulation for jvec (random dyadic model vector, 3-D or "
-                "4-D for isotropic) and a fresh one for jtvec (random complex data vector): "
-                "jvec_source, rsource(jt_residual), gradient_pipeline in Coq vs recorded solver inputs "
-                "and returned arrays; J v = <row, solved field> numerically. non-trivial = not "
-                "(Conductivity, isotropic). plus V_T validations on random grid pairs",
-        'samples': [H.brief(s) for s in specs[:4]],
-        'traces_validated_against_impl': len(specs),
+        'rule': "same-grid cases as for C07 (random stretched 4..5^3 grids, six maps, four anisotropy "
+                "cases, six source kinds, electric/magnetic absolute/relative receivers, NaN gaps, six "
+                "noise modes): fresh simulation for jvec and for jtvec; jvec_source, "
+                "rsource(jt_residual), gradient_pipeline in Coq vs recorded solver inputs and returned "
+                "arrays. PLUS computational grid /= model grid with >= 2 source-frequency pairs: "
+                "gridding 'input' / 'dict' (tiny unaligned grids, one per pair for 'dict') -> Coq "
+                "gradient_pipeline_T (per-pair contributions accumulated on the model grid through the "
+                "entries of discretize's volume_average) vs Simulation.jtvec; direct calls of "
+                "_interp_volume_average_adj with a non-zero output array vs Coq vt_add3; automatic "
+                "modes single/frequency/source/both (quick: two of them, thorough: all) vs the numpy "
+                "mirror of gradient_pipeline_T (mirror compared with Coq on the small cases), in memory "
+                "and with file_dir; V_T validations with non-zero output array. non-trivial = not "
+                "(Conductivity, isotropic, same grid)",
+        'samples': [H.brief(s) for s in specs[:3]] + [dict(H.brief(s), gridding=im['mode'])
+                                                      for s, im in zip(tspecs[:2], timpls[:2])],
+        'traces_validated_against_impl': len(specs) + nt + nd + 2 * na,
         'histogram': hist,
         'disagreements': dis,
     }
 
 
 # ------------------------------------------------------------------ searcher
-GRIDDINGS = ['same', 'single', 'frequency', 'source', 'both']
+GRIDDINGS = ['same', 'single', 'frequency', 'source', 'both', 'input', 'dict']
 
 
 def gopts(spec):
@@ -329,10 +569,12 @@ def dot_case(spec, gridding, use_files, seed):
         v = v[0]
     tmp = tempfile.mkdtemp(prefix='c08_') if use_files else None
     kw = dict(gridding=gridding, file_dir=tmp)
-    if gridding != 'same':
+    if gridding in ('input', 'dict'):
+        kw['gridding_opts'] = comp_grids_for(spec, gridding, np.random.RandomState(seed % 2**31))
+    elif gridding != 'same':
         kw['gridding_opts'] = gopts(spec)
     try:
-        with H.quiet():
+        with H.Recorder() as rec_, H.quiet():
             s1 = H.new_sim(spec, solver=H.TIGHT, **kw)
             jv = np.array(s1.jvec(v))          # the caller's own array, used again below
             s2 = H.new_sim(spec, solver=H.TIGHT, **kw)
@@ -346,6 +588,10 @@ def dot_case(spec, gridding, use_files, seed):
     finally:
         if tmp:
             shutil.rmtree(tmp, ignore_errors=True)
+    for _inp, out_ in rec_.calls:
+        info = out_[1]
+        if isinstance(info, dict) and info.get('exit', 0) != 0 and info.get('rel_error', 1) > 1e-9:
+            return None, float('nan')          # oracle not good enough: skip, do not alarm
     mask = ok & np.isfinite(jv)
     lhs = float(np.sum(np.conj(w[mask]) * jv[mask]).real)
     rhs = float(np.sum(jt * v))
@@ -396,7 +642,8 @@ def search(ctx, broken):
     n = 5 if ctx.thorough else 3
     for i in range(n):
         spec = H.add_observed(H.gen_spec(rng, idx=off + 7 * i, n_src=2, n_freq=2 if i == 0 else None), rng)
-        for gi, gridding in enumerate(GRIDDINGS if (i == 0 or ctx.thorough) else ['same', GRIDDINGS[1 + i % 4]]):
+        for gi, gridding in enumerate(GRIDDINGS if (i == 0 or ctx.thorough)
+                                      else ['same', GRIDDINGS[1 + i % 6]]):
             hit, err = dot_case(spec, gridding, use_files=((i + gi) % 2 == 1), seed=rng.randrange(2**31))
             ctx.notes.append(f"dot-test {H.brief(spec)['mapping']}/{H.brief(spec)['aniso']} "
                              f"gridding={gridding} files={(i + gi) % 2 == 1}: rel={err:.2e}")
